@@ -1,0 +1,8 @@
+//go:build !verif
+
+package fasthttp
+
+// verifPoint marks a place between critical sections where the verification
+// harness (build tag "verif") may observe or perturb the schedule.
+// Without the tag it is an empty function that the compiler inlines away.
+func verifPoint(string) {}
